@@ -1,4 +1,5 @@
 import Supv.Lemmas.InstRun
+import Supv.Lemmas.InstDetect
 import Supv.Spec.Graphs
 import Supv.Props.C16
 
@@ -67,6 +68,41 @@ def exCfg : Cfg :=
     failStrat := .cont }
 example : AccOk exCfg 1 { peers := [({} : Peer), ({ state := .running, localCounter := 7 } : Peer)], modes := [] } (.ltick 9) := by
   simp [AccOk, exCfg]
+
+/-- **C07 (completeness, one timer check).**  The timer check of local tick `k`, when it returns, HAS declared FAILED every
+    instance `j` of the configuration that was in an active state (CHECKING, CHECKED, RUNNING - or already FAILED) and whose
+    last tick was tagged more than `inactivity_ticks` local ticks earlier; nothing else of its record changes.  Whatever the
+    loop does to the other instances before and after `j` (publications, Master reset, ...) cannot prevent it.  With
+    `C07_timer_keeps_fresh` this pins the threshold exactly: nothing at `k - last ≤ inactivity_ticks`, FAILED at the first
+    local tick with `k - last > inactivity_ticks`, i.e. `inactivity_ticks + 1` local ticks of silence. -/
+theorem C07_timer_detects (c : Cfg) (j : Nat) (r : Peer) (k : Nat) (hj : j < c.n) (hact : r.state.active = true)
+    (hsilent : k - r.localCounter > c.inactivity) (s s' : St) (u : Unit)
+    (h : (timerCheck c k).run s = .ok (u, s')) (hp : peerRec j r s) :
+    peerRec j { r with state := .failed } s' :=
+  timerCheck_detects j r c k hj hact hsilent s s' u h hp
+
+/-- the bound in ticks: a peer whose last tick was tagged at local tick `k0` is detected by the timer check of local tick
+    `k0 + inactivity_ticks + 1` (and of any later one) -/
+theorem C07_detection_bound (c : Cfg) (j : Nat) (r : Peer) (k : Nat) (hj : j < c.n) (hact : r.state.active = true)
+    (hk : k ≥ r.localCounter + c.inactivity + 1) (s s' : St) (u : Unit)
+    (h : (timerCheck c k).run s = .ok (u, s')) (hp : peerRec j r s) :
+    (s'.peers[j]?.map (·.state)) = some .failed := by
+  have := timerCheck_detects j r c k hj hact (by omega) s s' u h hp
+  unfold peerRec at this
+  simp [this]
+
+/-- the premise "the timer check returns" is not vacuous: by the regenerated transition table FAILED can be assigned from
+    every other active state (no `InvalidTransition` can stop the loop at `j`), and re-assigning FAILED is a no-op -/
+theorem C07_failed_allowed_from_active : ∀ a : IState, a.active = true → a ≠ .failed → .failed ∈ a.next := by
+  intro a; cases a <;> decide
+
+-- non-vacuity: on a concrete state the timer check of local tick 10 returns and has marked the silent RUNNING peer 1 FAILED
+def detectsEx : Bool :=
+  match (timerCheck exCfg 10).run { peers := [({} : Peer), ({ state := .running, localCounter := 7 } : Peer)],
+                                    modes := [{ inst := [.running, .running] }, {}] } with
+  | .ok (_, s') => s'.peers.map (fun p => p.state.code) == [0, 4]
+  | .error _ => false
+example : detectsEx = true := by decide +kernel
 
 /-- **C07, who marks an instance FAILED / STOPPED / ISOLATED and when** (regenerated from the current `context.py` by the
     translator, G6): the hand-written model changes the state of an instance at exactly the sites of the source, under exactly
